@@ -8,8 +8,8 @@ import (
 	"errors"
 	"testing"
 
-	"github.com/gotid/god/internal/verifdrv"
 	red "github.com/go-redis/redis/v8"
+	"github.com/gotid/god/internal/verifdrv"
 )
 
 // TestVerifDriverC01: {"arg": e} -> acceptable(err) with e: 0 nil, 3 context.Canceled, 4 redis.Nil,
